@@ -4,6 +4,7 @@ Import ListNotations.
 Require Import CostScan CostLemmas.
 Require Scan ParseL PT ParserSafe ParserTerm.
 Require Emit EmitLemmas EmitQueue.
+Require ScanSafe.
 
 (* KIND C20_catalogue_doubling : F *)
 (* the property's own quantifier is a finite catalogue x sizes n, 2n, 4n: for the 15 scanner-bound load families the number of reader-primitive calls of the scanner
@@ -29,6 +30,16 @@ Theorem C20_emit_queue_bounded : forall evs canon allow_uni ind width lb s',
   (List.length (Emit.events s') <= 3)%nat /\ Emit.cur_ev s' = None /\ Emit.anal s' = None /\ Emit.sty s' = None.
 Proof. exact EmitQueue.emit_queue_bounded. Qed.
 Eval vm_compute in "ASSUME:C20_emit_queue_bounded"%string. Print Assumptions C20_emit_queue_bounded.
+
+(* KIND C20_token_request_within_linear_fuel : U *)
+(* load side, the scanner's main loop, EVERY scanner state that satisfies the invariant of C03_scanner_never_crashes: one token request never runs out of
+   fuel when the loop is given (number of unread characters + 1) iterations - every iteration of need_more_tokens / fetch_more_tokens consumes at least one
+   character or ends the stream (C03_fetch_more_tokens_makes_progress), so a request costs at most n+1 fetches, and over a whole run every fetch
+   but the last consumes input: the number of fetches is linear in the size of the text *)
+Theorem C20_token_request_within_linear_fuel : forall (fuel : nat) s, ScanSafe.Inv s -> (ScanSafe.mu s <= fuel)%nat ->
+  ScanSafe.wp (Scan.fill fuel) (fun _ s' => ScanSafe.Inv s') s.
+Proof. exact ScanSafe.wp_fill. Qed.
+Eval vm_compute in "ASSUME:C20_token_request_within_linear_fuel"%string. Print Assumptions C20_token_request_within_linear_fuel.
 
 (* PARTIAL: the cost model covers the scanner only (exact for prefix/forward, within 15% for peek, checked by the cost correspondence against sys.setprofile counts);
    composer, constructor, representer, serializer and emitter work, the parser's work per step, and the remaining families are decided by the direct measurement of interpreter-level
